@@ -1865,6 +1865,17 @@ SPECS = [
          header="def pauseWriting (s : Srv.Flow.FSt) : Srv.Flow.FSt × Unit :=", state_type="Srv.Flow.FSt",
          fields={"_unsent": "unsent", "_write_paused": "paused", "_response_sent": "started"},
          types={"self._write_paused": "bool"}),
+    # the status-class predicates and the response accessor that the client translations (followRedirects, clientParseHeader) took as given
+    dict(name="isRedirect", file="protocol/status.py", cls=None, func="is_redirect",
+         header="def isRedirect (status : Nat) : Bool :=", types={"status": "num"}),
+    dict(name="isSuccess", file="protocol/status.py", cls=None, func="is_success",
+         header="def isSuccess (status : Nat) : Bool :=", types={"status": "num"}),
+    dict(name="respIsRedirect", file="protocol/response.py", cls="GeminiResponse", func="is_redirect",
+         header="def respIsRedirect (isRedirect : Nat → Bool) (status : Nat) : Bool :=",
+         rename={"self.status": "status"}, funcs={"is_redirect": "isRedirect"}, types={"self.status": "num"}),
+    dict(name="respRedirectUrl", file="protocol/response.py", cls="GeminiResponse", func="redirect_url", ret_opt=True,
+         header="def respRedirectUrl (selfIsRedirect : Bool) (meta_ : List Char) : Option (List Char) :=",
+         opaque={"self.is_redirect()": "selfIsRedirect"}, rename={"self.meta": "meta_"}, types={"self.meta": "str"}),
     dict(name="isSafePath", file="server/handler.py", cls="StaticFileHandler", func="_is_safe_path",
          header="def isSafePath (root : Fs.Path) (file_path : Fs.Path) : Bool :=",
          rename={"self.document_root": "root"}, types={"file_path": "path", "self.document_root": "path"}, paths=True,
